@@ -815,10 +815,20 @@ func vC16CacheHistory(r *rand.Rand, size int, nops int) map[string]any {
 				old = ptrs[r.Intn(len(ptrs))]
 			}
 			nv := newPtr(r.Intn(3))
-			ok := c.CompareAndSwap(k, old, nv)
-			want := had && cur == old
+			// boundary values of the expected value: the untyped nil interface (what an absent key
+			// reads as) and a typed nil pointer — no stored value is identical to either (id 0)
+			var oldAny any = old
+			oldID := ids[old]
+			switch r.Intn(10) {
+			case 0:
+				oldAny, oldID = nil, 0
+			case 1:
+				oldAny, oldID = (*int)(nil), 0
+			}
+			ok := c.CompareAndSwap(k, oldAny, nv)
+			want := had && cur == old && oldID != 0
 			if ok != want {
-				fail("CompareAndSwap(%d)=%v, identical current value present: %v", k, ok, want)
+				fail("CompareAndSwap(%d, old=%T)=%v, identical current value present: %v", k, oldAny, ok, want)
 			}
 			if want {
 				ref[k] = nv
@@ -826,7 +836,7 @@ func vC16CacheHistory(r *rand.Rand, size int, nops int) map[string]any {
 			} else {
 				casMiss++
 			}
-			op = fmt.Sprintf("SCas %d %d %d %v", k, ids[old], ids[nv], ok)
+			op = fmt.Sprintf("SCas %d %d %d %v", k, oldID, ids[nv], ok)
 			verify()
 		case x < 70:
 			cur, had := ref[k]
@@ -838,10 +848,18 @@ func vC16CacheHistory(r *rand.Rand, size int, nops int) map[string]any {
 				}
 				old = newPtr(content)
 			}
-			ok := c.CompareAndDelete(k, old)
-			want := had && cur == old
+			var oldAny any = old
+			oldID := ids[old]
+			switch r.Intn(10) {
+			case 0:
+				oldAny, oldID = nil, 0
+			case 1:
+				oldAny, oldID = (*int)(nil), 0
+			}
+			ok := c.CompareAndDelete(k, oldAny)
+			want := had && cur == old && oldID != 0
 			if ok != want {
-				fail("CompareAndDelete(%d)=%v, identical current value present: %v", k, ok, want)
+				fail("CompareAndDelete(%d, old=%T)=%v, identical current value present: %v", k, oldAny, ok, want)
 			}
 			if want {
 				delete(ref, k)
@@ -849,7 +867,7 @@ func vC16CacheHistory(r *rand.Rand, size int, nops int) map[string]any {
 			} else {
 				casMiss++
 			}
-			op = fmt.Sprintf("SCad %d %d %v", k, ids[old], ok)
+			op = fmt.Sprintf("SCad %d %d %v", k, oldID, ok)
 			verify()
 		case x < 80:
 			c.Remove(k)
@@ -1139,9 +1157,13 @@ func vC16CorpusCache(path string) []map[string]any {
 				op = fmt.Sprintf("SGet %d %s", k, vC16Opt(id, ok))
 			case "cas":
 				old, nv := getPtr(o[2]), getPtr(o[3])
-				ok := c.CompareAndSwap(k, old, nv)
+				var oldAny any = old
+				if o[2] == "nil" { // the untyped nil interface: identical to no stored value
+					oldAny, old = nil, nil
+				}
+				ok := c.CompareAndSwap(k, oldAny, nv)
 				cur, had := ref[k]
-				if want := had && cur == old; ok != want {
+				if want := had && cur == old && old != nil; ok != want {
 					fail("CompareAndSwap(%s,%s,%s)=%v, identical current value present: %v", o[1], o[2], o[3], ok, want)
 				} else if want {
 					ref[k] = nv
@@ -1149,9 +1171,13 @@ func vC16CorpusCache(path string) []map[string]any {
 				op = fmt.Sprintf("SCas %d %d %d %v", k, ids[old], ids[nv], ok)
 			case "cad":
 				old := getPtr(o[2])
-				ok := c.CompareAndDelete(k, old)
+				var oldAny any = old
+				if o[2] == "nil" {
+					oldAny, old = nil, nil
+				}
+				ok := c.CompareAndDelete(k, oldAny)
 				cur, had := ref[k]
-				if want := had && cur == old; ok != want {
+				if want := had && cur == old && old != nil; ok != want {
 					fail("CompareAndDelete(%s,%s)=%v, identical current value present: %v", o[1], o[2], ok, want)
 				} else if want {
 					delete(ref, k)
